@@ -25,7 +25,16 @@ impl Prop for C10 {
         // the first cases of every run cover each scenario class once
         let class = if idx < 8 { idx } else { r.below(8) };
         let src = match class {
-            0 | 1 | 2 => IoSrc::Mux(small_scenario(r.next_u64() >> 20)),
+            0 | 1 => IoSrc::Mux(small_scenario(r.next_u64() >> 20)),
+            2 => {
+                // the same kind of history written behind 4 GiB of other data in a sparse sink:
+                // 64-bit chunk offset tables are written (only the muxing is enumerated)
+                let mut sc = small_scenario(r.next_u64() >> 20);
+                if idx == 2 || r.chance(1, 2) {
+                    sc.start_pos = (1u64 << 32) + r.below(1 << 20);
+                }
+                IoSrc::Mux(sc)
+            }
             3 => IoSrc::Seed(SeedSpec::Canned("minimal.mp4".into())),
             4 => IoSrc::Seed(SeedSpec::CannedFrag),
             5 => IoSrc::Seed(SeedSpec::Frag { seed: r.below(4096) }),
@@ -44,6 +53,7 @@ impl Prop for C10 {
         };
         // the schedule is generated against the image the clean run will produce
         let (img, split) = match &src {
+            IoSrc::Mux(sc) if sc.start_pos > (1 << 30) => (Vec::new(), None),
             IoSrc::Mux(sc) => (crate::seeds::mux_bytes(sc), None),
             IoSrc::Seed(s) => {
                 let si = build(s);
